@@ -30,7 +30,7 @@ RULE = (
     "next(a), next(b), error, complete, dispose, subbare (after dispose); a case = one transition (history replayed from scratch on fresh "
     "objects); non-trivial = the last event delivered >=1 notification to an observer or raised to the caller; distinct = (configuration, history)"
 )
-BUDGET = {"quick": 120.0, "thorough": 1200.0}
+BUDGET = {"quick": 300.0, "thorough": 1200.0}
 
 
 def script_sets(tier: str) -> list:
